@@ -36,10 +36,10 @@ def plan(tier, seed):
     sh = []
     for d in ("tridonic", "hasseb"):
         for p in range(4 if tier == "quick" else 16):
-            sh.append({"kind": "loss", "driver": d, "part": p, "n": 40 if tier == "quick" else 200})
+            sh.append({"kind": "loss", "driver": d, "part": p, "n": 80 if tier == "quick" else 300})
         sh.append({"kind": "cancel", "driver": d, "steps": 16 if tier == "quick" else 40, "after": 300})
     for d in ("luba", "sci"):
-        sh.append({"kind": "silence", "driver": d, "n": 60 if tier == "quick" else 600})
+        sh.append({"kind": "silence", "driver": d, "n": 200 if tier == "quick" else 1200})
         sh.append({"kind": "cancel", "driver": d, "steps": 16 if tier == "quick" else 40, "after": 60})
     return sh
 
